@@ -75,6 +75,9 @@ func verifSchemaSA() *schema.BodySchema {
 						"req":   {Constraint: schema.LiteralType{Type: cty.Number}, IsRequired: true, SemanticTokenModifiers: lang.SemanticTokenModifiers{"m-req"}},
 					},
 					Blocks: map[string]*schema.BlockSchema{
+						"conn": {SemanticTokenModifiers: lang.SemanticTokenModifiers{"m-conn"},
+							Labels: []*schema.LabelSchema{{Name: "kind", SemanticTokenModifiers: lang.SemanticTokenModifiers{"m-kind"}}, {Name: "id", SemanticTokenModifiers: lang.SemanticTokenModifiers{"m-id"}}},
+							Body:   &schema.BodySchema{Attributes: map[string]*schema.AttributeSchema{"host": {Constraint: schema.LiteralType{Type: cty.String}, IsOptional: true}}}},
 						"nested": {SemanticTokenModifiers: lang.SemanticTokenModifiers{"m-nested"},
 							Body: &schema.BodySchema{Attributes: map[string]*schema.AttributeSchema{
 								"deep":  {Constraint: schema.AnyExpression{OfType: cty.String}, IsOptional: true, SemanticTokenModifiers: lang.SemanticTokenModifiers{"m-deep"}},
@@ -263,6 +266,7 @@ func verifSeedList() []verifSeed {
 		{"cobj-partial", "cobj = {\n  a\n}\n", 0},
 		{"blk", "blk \"a\" {\n  inner = \"y\"\n  req = 1\n}\n", 0},
 		{"blk-nested", "blk \"a\" {\n  nested {\n    deep = \"z\"\n    deep2 = 2\n  }\n}\n", 0},
+		{"blk-conn", "blk \"a\" {\n  conn \"ssh\" \"primary\" {\n    host = \"h\"\n  }\n}\n", 0},
 		{"blk-nolabel", "blk {\n}\n", 0},
 		{"blk-partial-label", "blk \"a\n", 0},
 		{"blk-oneline", "nolabel { x = 1 }\n", 0},
